@@ -614,6 +614,24 @@ Proof.
     + apply post_sn_send; [exact HG1|exact I].
 Qed.
 
+(* handler1.registerTopic: the name keeps its ID, or a fresh ID is allocated and registered *)
+Lemma register_topic_good cfg s name s1 r :
+  wf_cfg cfg -> Inv s -> register_topic cfg s name = (s1, r) -> Good cfg (gw_client_id s) s s1.
+Proof.
+  intros Hwf HI. unfold register_topic.
+  destruct (find_registered s name) as [i0|] eqn:Hf.
+  - intros H; injection H as <- <-. apply Good_refl, HI.
+  - destruct (new_topic_id cfg s) as [s2 [i|]] eqn:Hn;
+      apply (alloc_spec cfg (gw_client_id s)) in Hn; try assumption; destruct Hn as (HG1 & Hu & Hr);
+      intros H; injection H as <- <-.
+    + destruct Hr as (Hrng & Hfresh & Hnm & Hinv).
+      eapply Good_trans; [exact HG1|].
+      apply (ext_good cfg _ s2 _ i name); try ext_side; try apply HG1; try assumption.
+      * intros n' Hk. exfalso. exact (Hfresh n' Hk).
+      * right. split; assumption.
+    + exact HG1.
+Qed.
+
 Lemma handle_subscribe_post cfg s dup qos tit mid tid name :
   wf_cfg cfg -> Inv s -> Post cfg (gw_client_id s) s (handle_subscribe cfg s dup qos tit mid tid name).
 Proof.
@@ -621,16 +639,10 @@ Proof.
   destruct ((2 <? qos) || (mid =? 0)); [post_auto; good_tac|].
   destruct (tit =? TIT_STRING); [|post_auto; good_tac].
   destruct (negb (has_wildcard name)); [|post_auto; good_tac].
-  destruct (new_topic_id cfg s) as [s1 [i|]] eqn:Hn;
-    apply (alloc_spec cfg (gw_client_id s)) in Hn; try assumption; destruct Hn as (HG1 & Hu & Hr).
-  - destruct Hr as (Hrng & Hfresh & Hnm & Hinv).
-    assert (HG : Good cfg (gw_client_id s) s (s1 <| gw_registered := <[i := name]> (gw_registered s1) |>)).
-    { eapply Good_trans; [exact HG1|].
-      apply (ext_good cfg _ s1 _ i name); try ext_side; try apply HG1; try assumption.
-      - intros n' Hk. exfalso. exact (Hfresh n' Hk).
-      - right. split; assumption. }
-    post_auto; good_tac.
-  - apply post_sn_send; [exact HG1|exact I].
+  destruct (register_topic cfg s name) as [s1 [i|]] eqn:Hrt;
+    pose proof (register_topic_good cfg s name _ _ Hwf HI Hrt) as HG.
+  - post_auto; good_tac.
+  - apply post_sn_send; [exact HG|exact I].
 Qed.
 
 Lemma handle_broker_publish_post cfg s dup qos retain topic mid0 payload :
@@ -1151,6 +1163,12 @@ Proof.
   destruct ov; [exact Hs|]. rewrite skip_predefined_cid. exact Hs.
 Qed.
 
+Lemma register_topic_cid cfg s name : gw_client_id (fst (register_topic cfg s name)) = gw_client_id s.
+Proof.
+  unfold register_topic. destruct (find_registered s name); [reflexivity|].
+  pose proof (new_topic_id_cid cfg s) as Hn. destruct (new_topic_id cfg s) as [s1 [i|]]; exact Hn.
+Qed.
+
 Ltac k_auto :=
   repeat match goal with
          | |- keeps _ (andthen _ _) => apply k_andthen; [|intros ? ?]
@@ -1192,7 +1210,7 @@ Lemma handle_subscribe_k c cfg s dup qos tit mid tid name :
   gw_client_id s = c -> keeps c (handle_subscribe cfg s dup qos tit mid tid name).
 Proof.
   intros H. unfold handle_subscribe, new_obj. cbv zeta beta.
-  pose proof (new_topic_id_cid cfg s) as Hn. destruct (new_topic_id cfg s) as [s1 r]. cbn [fst] in Hn.
+  pose proof (register_topic_cid cfg s name) as Hn. destruct (register_topic cfg s name) as [s1 r]. cbn [fst] in Hn.
   rewrite H in Hn. k_auto; cid_tac.
 Qed.
 
@@ -1404,6 +1422,12 @@ Proof.
   destruct ov; [exact Hs|]. rewrite skip_predefined_st. exact Hs.
 Qed.
 
+Lemma register_topic_st cfg s name : gw_st (fst (register_topic cfg s name)) = gw_st s.
+Proof.
+  unfold register_topic. destruct (find_registered s name); [reflexivity|].
+  pose proof (new_topic_id_st cfg s) as Hn. destruct (new_topic_id cfg s) as [s1 [i|]]; exact Hn.
+Qed.
+
 Ltac q_auto :=
   repeat match goal with
          | |- quiet (andthen _ _) => apply q_andthen; [|intros ? ?]
@@ -1444,7 +1468,7 @@ Lemma handle_subscribe_q cfg s dup qos tit mid tid name :
   gw_st s = Asleep -> quiet (handle_subscribe cfg s dup qos tit mid tid name).
 Proof.
   intros H. unfold handle_subscribe, new_obj. cbv zeta beta.
-  pose proof (new_topic_id_st cfg s) as Hn. destruct (new_topic_id cfg s) as [s1 r]. cbn [fst] in Hn.
+  pose proof (register_topic_st cfg s name) as Hn. destruct (register_topic cfg s name) as [s1 r]. cbn [fst] in Hn.
   rewrite H in Hn. q_auto; st_tac.
 Qed.
 
